@@ -68,6 +68,32 @@ var c26Opaque = []struct {
 		func(f *syntax.File, src string) bool { return strings.Contains(src, "PIPESTATUS") },
 	},
 	{
+		// break/continue in the condition list of a while/until loop is
+		// ignored by the interpreter (bash leaves / restarts that loop)
+		"break-continue-in-loop-condition-ignored",
+		func(f *syntax.File, src string) bool {
+			found := false
+			syntax.Walk(f, func(n syntax.Node) bool {
+				w, ok := n.(*syntax.WhileClause)
+				if !ok {
+					return true
+				}
+				for _, st := range w.Cond {
+					syntax.Walk(st, func(m syntax.Node) bool {
+						if ce, ok := m.(*syntax.CallExpr); ok && len(ce.Args) > 0 {
+							if l := ce.Args[0].Lit(); l == "break" || l == "continue" {
+								found = true
+							}
+						}
+						return true
+					})
+				}
+				return true
+			})
+			return found
+		},
+	},
+	{
 		// `break 0`, `continue 0`, non-numeric and negative counts: bash reports
 		// an error (status 1 or 128, leaving the loop / the shell); the
 		// interpreter treats them as a no-op or a different status
